@@ -1,6 +1,8 @@
 CONSTANTS
   Dev = {}
   RecU = {1, 2, 9}
+  TtlU = {0}
+  Styles = {"rfc"}
   MaxC = 2
   Kinds = {"axfr", "ixfr1", "fallback", "uptodate"}
   MaxMsgs = 3
